@@ -15,9 +15,11 @@ pub fn check_par<T: Payload>(w: &World<T>, threads: u8, seq: &[KeyT], viols: &mu
         2 => 7,
         _ => 16,
     };
-    let pool = match rayon::ThreadPoolBuilder::new().num_threads(n).build() {
-        Ok(p) => p,
-        Err(_) => return,
+    // one pool per size for the whole process (building a pool per observation costs ms)
+    static POOLS: [std::sync::OnceLock<Option<rayon::ThreadPool>>; 4] =
+        [std::sync::OnceLock::new(), std::sync::OnceLock::new(), std::sync::OnceLock::new(), std::sync::OnceLock::new()];
+    let Some(pool) = POOLS[(threads % 4) as usize].get_or_init(|| rayon::ThreadPoolBuilder::new().num_threads(n).build().ok()) else {
+        return;
     };
     let arena = &w.arena;
     let key = |n: &indextree::Node<T>| -> KeyT {
